@@ -8,6 +8,7 @@
 From Coq Require Import List NArith Arith Bool Lia.
 From AHK Require Import Lib.Res Lib.ByteStr Model.Tlv Model.Sym Model.Setup Proofs.SymFacts Proofs.SetupFacts.
 From AHK Require Import Model.SetupFrames Proofs.SetupFramesFacts.
+From AHK Require Model.ChaChaPoly Model.Hkdf Proofs.ChaChaPoly Proofs.Hkdf.
 Import ListNotations.
 
 (* SOUNDNESS.  For every transport, setup code, controller identifier, SRP and
@@ -231,3 +232,39 @@ Print Assumptions ble_frames_run_eq.
 Print Assumptions ble_frames_error_fails.
 Print Assumptions ble_frames_single_plain.
 Print Assumptions ble_frames_cut_irrelevant.
+
+(* ==== the byte-level primitives behind ps_key / s_seal / s_open: the shared bit-exact models
+   Model/Hkdf.v (HKDF-SHA-512, = aiohomekit.crypto.hkdf.hkdf_derive) and Model/ChaChaPoly.v
+   (ChaCha20-Poly1305, = aiohomekit.crypto.chacha20poly1305), tied to the code by
+   harness/hkdftie.py and harness/aeadtie.py (called from harness/c03.py) and by the
+   bit-exact M5/M6 stream of harness/c03.py.  The symbolic model's assumptions about them
+   (s_open inverts s_seal only under the same key/nonce/aad; a derived key has the
+   requested length) are theorems of the byte-level models: ==== *)
+Theorem ps_kdf_length : forall ikm salt info len out,
+    Model.Hkdf.hkdf_derive ikm salt info len = Some out -> length out = len.
+Proof. exact Proofs.Hkdf.hkdf_derive_length. Qed.
+
+Theorem ps_kdf_guard : forall ikm salt info len,
+    Model.Hkdf.hkdf_derive ikm salt info len = None <-> 255 * 64 < len.
+Proof. exact Proofs.Hkdf.hkdf_derive_guard. Qed.
+
+(* M5 as sealed by the controller opens (accessory side) to the same plaintext, M6 likewise *)
+Theorem ps_aead_open_seal : forall k n a p,
+    Model.ChaChaPoly.cp_open k n a (Model.ChaChaPoly.cp_seal k n a p) = Some p.
+Proof. exact Proofs.ChaChaPoly.cp_open_seal. Qed.
+
+(* an M6 box that opens IS the sealing of the plaintext it yields: every byte of it is pinned *)
+Theorem ps_aead_open_sound : forall k n a box p,
+    Model.ChaChaPoly.cp_open k n a box = Some p -> box = Model.ChaChaPoly.cp_seal k n a p.
+Proof. exact Proofs.ChaChaPoly.cp_open_sound. Qed.
+
+(* a truncated box (shorter than the tag) never opens *)
+Theorem ps_aead_open_short : forall k n a box,
+    length box < 16 -> Model.ChaChaPoly.cp_open k n a box = None.
+Proof. exact Proofs.ChaChaPoly.cp_open_short. Qed.
+
+Print Assumptions ps_kdf_length.
+Print Assumptions ps_kdf_guard.
+Print Assumptions ps_aead_open_seal.
+Print Assumptions ps_aead_open_sound.
+Print Assumptions ps_aead_open_short.
